@@ -10,7 +10,7 @@ use std::panic::{catch_unwind, AssertUnwindSafe};
 
 fn limits(ctx: &mut Ctx, sc: &StreamCase) {
     let id = ctx.id();
-    let full = ep_vec(&sc.z, sc.zlib, usize::MAX >> 1);
+    let full = ep_vec(&sc.z, sc.zlib, 64 << 20);
     if full.st != 0 { return; }
     let n = full.out.len();
     let replay = format!("LIMIT fmt={} data={}", sc.zlib as u8, hex(&sc.z));
